@@ -1081,10 +1081,11 @@ func kvOf(s string) optKV {
 	return optKV{K: s}
 }
 
-func cfgB() idl.Cfg {
+func cfgB(services bool) idl.Cfg {
 	c := idl.GoSafe()
 	c.MaxFiles = 4
 	c.MaxDefs = 2
+	c.Services = services // services make the Go output (and the run) several times larger
 	return c
 }
 
@@ -1195,7 +1196,7 @@ var faultShapes = []string{"error_string", "exit_status", "truncated_stdout", "g
 var garbageSamples = []string{"hello from the plugin\n", "panic: runtime error\n\ngoroutine 1 [running]:\n", "{\"error\":null}", "\x0b", "\x0b\x00", "\xff\xfe\xfd\xfc\xfb", "\x01\x00\x01", "\x10\x00\x01\x00\x00\x00\x01a\x00", "<html>"}
 
 func genE2E(rt *rapid.T) e2eCase {
-	p := idl.Gen(rt, cfgB())
+	p := idl.Gen(rt, cfgB(rapid.IntRange(0, 2).Draw(rt, "services") == 0))
 	c := e2eCase{Main: p.Files[0].Path, Files: p.Texts(nil), LimitMs: -1}
 	ns := ""
 	for _, n := range p.Files[0].Namespaces {
@@ -1263,6 +1264,11 @@ func genE2E(rt *rapid.T) e2eCase {
 			case "garbage_stdout":
 				pc.Script.UseGarb = true
 				pc.Script.Garbage = []byte(rapid.SampledFrom(garbageSamples).Draw(rt, "garbage"))
+				if vt.Known(prop, "garbled-stdout-panic-exit0") && pc.Script.Garbage[0] >= 0x80 {
+					// a field type byte >= 0x80 makes UnmarshalResponse panic (exit 0): keep the bytes unknown-typed but below 0x80
+					pc.Script.Garbage[0] = 0x7f
+					vt.Excluded("garbled-stdout-panic-exit0")
+				}
 			case "empty_stdout":
 				pc.Script.UseGarb = true
 			}
